@@ -95,7 +95,7 @@ def _parse_einsum_input(operands, asarray):
     # Parse ellipses
     if "." in subscripts:
         used = subscripts.replace(".", "").replace(",", "").replace("->", "")
-        unused = list(einsum_symbols_set - set(used))
+        unused = sorted(einsum_symbols_set - set(used))  # sorted: set order follows the hash seed
         ellipse_inds = "".join(unused)
         longest = 0
 
@@ -212,7 +212,9 @@ def einsum(*operands, dtype=None, optimize=False, split_every=None, **kwargs):
     all_inds = {a for i in inputs for a in i}
 
     # Which indices are contracted?
-    contract_inds = all_inds - set(outputs)
+    # Sorted: the order fixes the intermediate's axis order and hence the
+    # collection's name; iterating a set of strings follows the hash seed.
+    contract_inds = sorted(all_inds - set(outputs))
     ncontract_inds = len(contract_inds)
 
     if len(inputs) > 1 and len(outputs) > 0:
